@@ -83,7 +83,7 @@ def ph_xml(i: int, p: dict) -> str:
         attrs += ' orient="%s"' % p["orient"]
     if p["sz"] != "full":
         attrs += ' sz="%s"' % p["sz"]
-    xfrm = ('<a:xfrm><a:off x="%d" y="%d"/><a:ext cx="%d" cy="%d"/></a:xfrm>' % (100000 * (i + 1), 200000 * (i + 1), 3000000 + 1000 * i, 1000000 + 7 * i)) if p["own"] else ""
+    xfrm = ('<a:xfrm><a:off x="%d" y="%d"/><a:ext cx="%d" cy="%d"/></a:xfrm>' % (100000 * i, 0 if i % 2 == 0 else 200000 * i, 3000000 + 1000 * i, 1000000 + 7 * i)) if p["own"] else ""   # first one sits at (0, 0)
     return ('<p:sp xmlns:p="%s" xmlns:a="%s"><p:nvSpPr><p:cNvPr id="%d" name="Gen Placeholder %d"/><p:cNvSpPr><a:spLocks noGrp="1"/></p:cNvSpPr>'
             '<p:nvPr><p:ph%s/></p:nvPr></p:nvSpPr><p:spPr>%s</p:spPr><p:txBody><a:bodyPr/><a:lstStyle/><a:p><a:endParaRPr lang="en-US"/></a:p></p:txBody></p:sp>'
             % (P, A, i + 2, i + 1, attrs, xfrm))
